@@ -3,7 +3,7 @@ import common
 from common import hx
 
 BUILTIN = ['NONE', 'TRACE', 'DEBUG', 'INFO', 'WARN', 'ERROR', 'PANIC', 'FATAL', 'MAX']
-CUSTOM = ['VERBOSE', 'NOTICE', 'ABOVE']
+CUSTOM = ['VERBOSE', 'NOTICE', 'ABOVE', 'BELOW', 'ALL', 'OFF']   # ALL/OFF sit at the two ends of the int32 code space
 
 
 def level_str(rng, valid=True):
@@ -40,7 +40,7 @@ def gen(run):
             k = rng.randint(1, 4)
             refs = [level_str(rng, valid=rng.random() > 0.03) for _ in range(k)]
             if k >= 2 and rng.random() < 0.35:   # force equal lower bounds
-                base = rng.choice(BUILTIN[1:-1] + CUSTOM[:2])
+                base = rng.choice(BUILTIN[1:-1] + CUSTOM[:2] + ['ALL'])
                 refs[0] = base.lower()
                 refs[1] = rng.choice([base, base + '~' + rng.choice(BUILTIN + CUSTOM)])
             rng.shuffle(refs)
@@ -61,9 +61,9 @@ def nontrivial(case, obs):
 def check(run):
     cases = common.corpus('C01') + gen(run)
     res = common.simple_family_check(run, 'c01', 'c01/deliver', cases, nontrivial,
-        'generated single-logger configurations (kinds sync/async/console/file/rolling[sep][async], level strings over built-in and three '
-        'custom levels in random case/spacing, 1-4 appender references in random order with forced equal lower bounds, with/without logger layout); '
-        'per configuration 36 Record probes (every registered code and its neighbours) + the 14 fixed-level entry points; observable = which appender '
+        'generated single-logger configurations (kinds sync/async/console/file/rolling[sep][async], level strings over built-in and six '
+        'custom levels (two at the ends of the int32 code space) in random case/spacing, 1-4 appender references in random order with forced equal lower bounds, with/without logger layout); '
+        'per configuration 43 Record probes (every registered code and its neighbours) + the 14 fixed-level entry points; observable = which appender '
         'received each probe, as event or as bytes; non-trivial = at least two distinct delivery sets among the probes')
     if res:
         mo, io = res
@@ -72,7 +72,7 @@ def check(run):
             k = c.split()[0] + ('/err' if o == 'err' else '')
             kinds[k] = kinds.get(k, 0) + 1
         run.coverage['distribution'] = kinds
-        run.coverage['probes_per_case'] = 50
+        run.coverage['probes_per_case'] = 57
     return 'see streams'
 
 
